@@ -358,8 +358,7 @@ class Run:
                     rk, exc_obj = raise_kind(op)
                     self.stats["on_timeout_raised:" + rk] = self.stats.get("on_timeout_raised:" + rk, 0) + 1
                     if tk is not None:
-                        # a body leaving with CancelledError ends the Task cancelled: AsyncTask.lean has no such event,
-                        # so that Task is left out of the `atask` comparison
+                        # a body leaving with CancelledError ends the Task cancelled (AsyncTask.Ev.bodyCancelled)
                         tk._c10_raised = "cancelled" if rk == "cancelled" else True
                     raise exc_obj
                 self.do_op(op)
@@ -901,11 +900,10 @@ class Run:
         for tk in self.sd_tasks:
             await tk
         for tk, delayed, phase in self.atask_obs:
-            if getattr(tk, "_c10_raised", False) == "cancelled":
-                continue
             end = "cancelled" if tk.cancelled() else ("finished" if tk.done() else "pending")
             self.log.append((self.now(), f"atask {1 if delayed else 0} {phase}"
-                             + (" raise" if phase == "running" and getattr(tk, "_c10_raised", False) else ""),
+                             + ((" raisec" if getattr(tk, "_c10_raised", False) == "cancelled" else " raise")
+                                if phase == "running" and getattr(tk, "_c10_raised", False) else ""),
                              f"body={getattr(tk, '_c10_body', 0)} end={end}"))
         for w in self.waiters:
             key = "waiter:" + ("cancelled" if w.cancelled() else "resolved" if w.done() else "pending")
@@ -1183,6 +1181,10 @@ def lanes_case(n, same_ident, pops, glob, bodies, stagger=False, order=None) -> 
             body = [["add", i], ["get", ident[0], ident[1]]]
         elif b == "clear_readd":
             body = [["clear"], ["add", i], ["get", ident[0], ident[1]]]
+        elif b == "clear_raise":        # cancels its own running timeout task, then leaves with an Exception
+            body = [["clear"], ["raise"]]
+        elif b == "clear_raisec":       # … or with CancelledError
+            body = [["clear"], ["raise", "cancelled"]]
         # stagger: cache i expires 125 ms after cache i-1, so the lanes race the FIRST expiry while later ones are
         # still asleep (different timeout values)
         specs[i] = spec(ident[0], ident[1], d + (GRID * i if stagger else 0), 0, [i % 3], body)
@@ -1212,7 +1214,8 @@ def lanes_space(n, full, stagger=False):
     lanes = LANES if full else ["at1", "hop1", "hop2"]
     pop_opts = [None] + lanes
     glob_opts = [None] + [(g, ln) for g in ("clear", "shutdown") for ln in lanes]
-    body_opts = ([None, "next", "self", "fresh", "readd", "clear_readd"] if n <= 2 else
+    body_opts = ([None, "next", "self", "fresh", "readd", "clear_readd", "clear_raise", "clear_raisec"] if n == 1 else
+                 [None, "next", "self", "fresh", "readd", "clear_readd"] if n == 2 else
                  [None, "next", "readd"] if n == 3 else [None, "next"])
     for same in ([False, True] if n > 1 else [False]):
         for pops in itertools.product(pop_opts, repeat=n):
@@ -1277,6 +1280,13 @@ def run_case(ctx: Ctx, case: dict, lines_out: list | None):
         rep = reply.split(" | ")[0].split(" ")[0]
         if not rep.startswith("overdue"):
             ctx.count("reply:" + rep)
+            evk = line.replace("~ ", "").split(" ")[0]
+            sub = rep
+            if evk == "get":
+                sub = "none" if reply.split(" | ")[0] == "got none" else "some"
+            elif evk == "atask":
+                sub = line.split(" ", 2)[2].replace(" ", "-") + ":" + reply.replace(" ", ",")
+            ctx.count(f"branch:{evk}:{sub}")
     for sig, what in r.failures:
         ctx.oracle_fail(sig, what, {"case": case})
     if r.loop_errors:
@@ -1394,9 +1404,10 @@ def run(ctx: Ctx):
             batch.clear()
     if batch:
         compare_with_model(ctx, batch)
+    coverage_gate(ctx)
     ctx.extra["exhaustive_scopes"] = (
         "COMPLETE: lanes n=1,2 caches x {absent,6 lanes} per pop x {none, clear|shutdown x 6 lanes} x 6 bodies each "
-        "(none, pop neighbour, pop self, add fresh, re-add self, clear+re-add self), shared/distinct identity, n=2 also "
+        "(none, pop neighbour, pop self, add fresh, re-add self, clear+re-add self; n=1 also clear+raise, clear+raise CancelledError), shared/distinct identity, n=2 also "
         "staggered; lanes n=3 x 3 racing lanes (at1,hop1,hop2) x 3 bodies (none, pop neighbour, re-add self) in all 6 add "
         "orders, n=4 x 3 racing lanes x 2 bodies (none, pop neighbour); sequences: every op sequence up to length 5 over 6 ops x {t=0, at the deadline}, up to "
         "length 4 with unequal delays.  SAMPLED (not exhaustive): n=3 with all lanes/bodies/add orders (10000 draws); "
@@ -1404,6 +1415,46 @@ def run(ctx: Ctx):
         if ctx.thorough() else (
         "COMPLETE: lanes n=1; sequences up to length 3.  SAMPLED: lanes n=2 (1000 draws), n=3 (500), n=4 (300) over all "
         "lanes/bodies/add orders; sequences of length 4-6 (600)")
+
+
+# branch classes of the hand-written model (`Model.step`, `effDelay`, `cancelPending`, `AsyncTask.step` scripts) that every
+# green run must have exercised against the real code; a class that stays at zero would mean the sampled tie silently
+# lost that branch, so the run ends as an infrastructure failure (exit 2) instead of looking like a pass
+REQUIRED_CLASSES = [
+    "branch:mk:mk", "branch:mk:inuse", "branch:mkr:mk", "branch:mkr:raised",
+    "branch:add:added", "branch:add:dup", "branch:add:dropped-shutdown", "branch:add:assert", "branch:add:raised",
+    "branch:pop:claimed", "branch:pop:keyerror", "branch:get:none", "branch:get:some",
+    "branch:fb:timeout", "branch:fe:fired", "branch:fa:aborted",
+    "branch:clear:done", "branch:shutdown:done", "branch:tmshutdown:done",
+    "branch:enter:done", "branch:exit:done", "branch:fset:done", "branch:fcancel:done", "branch:regfut:done",
+    "obs:delay:no-passthrough", "obs:delay:override-unfiltered", "obs:delay:filter-hit", "obs:delay:filter-miss",
+    "obs:delay:zero-override", "obs:delay:class-default",
+    "obs:self_readd:raised", "obs:self_readd:added", "obs:add_inside_on_timeout",
+    "obs:same_instant_pop", "obs:woken_cancel",
+    "obs:atask:created", "obs:atask:sleeping", "obs:atask:woken", "obs:atask:running",
+    "branch:atask:created:body=0,end=cancelled", "branch:atask:sleeping:body=0,end=cancelled",
+    "branch:atask:woken:body=0,end=cancelled", "branch:atask:running:body=1,end=cancelled",
+    "branch:atask:running-raise:body=1,end=finished", "branch:atask:running-raisec:body=1,end=cancelled",
+    "obs:on_timeout_raised:exception", "obs:on_timeout_raised:cancelled", "obs:on_timeout_raised:base",
+    "obs:handler_ops", "obs:handler_raised",
+    "obs:api:pop:str", "obs:api:pop:cls", "obs:api:get:cls", "obs:api:ret:str", "obs:api:ret:wd", "obs:api:ret:2p",
+    "obs:api:ret:wd2", "obs:passthrough_exit_by_exception", "obs:late_add_shutdown", "obs:tm_shutdown",
+    "obs:op_while_shutdown_awaits", "family:random", "family:population", "family:long", "family:lanes",
+    "family:sequences",
+]
+
+
+def coverage_gate(ctx: Ctx):
+    """only for runs that would otherwise be green: a violation / disagreement must never be hidden behind exit 2"""
+    if ctx.failures or ctx.disagreements or ctx.broken or ctx.replay_input is not None or not ctx.model_ok:
+        return
+    import os
+    extra = [k for k in os.environ.get("C10_EXTRA_REQUIRED", "").split(",") if k]      # for testing the gate itself
+    missing = [k for k in REQUIRED_CLASSES + extra if not ctx.counts.get(k)]
+    ctx.extra["required_classes"] = {"listed": len(REQUIRED_CLASSES), "missing": missing}
+    if missing:
+        from vlib import InfraError
+        raise InfraError("coverage classes that the design requires stayed at zero: " + ", ".join(missing))
 
 
 def search(ctx: Ctx, reason: str):
